@@ -71,6 +71,15 @@ func genRequest() request {
 		r.SeqID = int32(rnd("env.seqid-rnd"))
 	}
 	r.Body = genVal(ref.TStruct, 0, genOpts{maxDepth: 2})
+	if simrt.Flip("env.large-body", 0.004) {
+		// a body with a binary field of a few MiB (content that is not all zeros)
+		sz := (2 << 20) + 1 + ch("env.large-body-extra", 3)*((1<<19)+5)
+		bs := make([]byte, sz)
+		for i := range bs {
+			bs[i] = byte(i*13 + 1)
+		}
+		r.Body.Fields = append(r.Body.Fields, ref.Field{ID: 3000, V: ref.Bin(bs)})
+	}
 	r.F = framing(ch("env.framing", 3))
 	return r
 }
@@ -467,7 +476,40 @@ func pipelined(res *world.Result) {
 	res.Count("c12.requests-answered-after-reading-ahead", 1)
 }
 
+// failedReplyBefore: an earlier exchange whose reply could not be written (the peer went away
+// after k bytes); whatever the library keeps of that reply must not show in the next one.
+func failedReplyBefore(res *world.Result) {
+	if !simrt.Flip("cs.failed-reply-before", 0.15) {
+		return
+	}
+	r0 := genRequest()
+	b0 := r0.encode()
+	full := simio.Plan{TruncAt: -1, ErrAt: -1}
+	body := genVal(ref.TStruct, 0, genOpts{maxDepth: 1})
+	limit := ch("cs.failed-reply-after-bytes", 12)
+	if ch("cs.failed-reply-api", 2) == 0 {
+		o := decodeRequest(r0.Type, b0, full)
+		if r, ok := o.resp.(binary.Responder); o.ok && ok {
+			guardReq(func() reqOutcome {
+				r.EncodeResponse(refwire.ToWire(body), wire.Reply, simio.NewWriter(limit))
+				return reqOutcome{}
+			})
+		}
+	} else {
+		rd, _ := simio.NewReader(b0, full)
+		o := readRequest(r0.Type, rd, nil)
+		if rw, ok := o.resp.(stream.ResponseWriter); o.ok && ok {
+			guardReq(func() reqOutcome {
+				rw.WriteResponse(wire.Reply, simio.NewWriter(limit), &genericEnveloper{Body: body})
+				return reqOutcome{}
+			})
+		}
+	}
+	res.Count("c12.exchanges-after-a-reply-that-could-not-be-written", 1)
+}
+
 func c12ClientServer(res *world.Result, logf func(string, ...interface{}), h *world.Hasher, overPipe bool) {
+	failedReplyBefore(res)
 	req := genRequest()
 	// the server's expectation: mostly the request's own type
 	et := req.Type
